@@ -4,6 +4,7 @@ import PewProofs.Srr
 /-! helper lemmas for C10 -/
 namespace Pew
 namespace Extent
+open Pew.Srr (normIdx_natCast)
 
 theorem trunc_intCast (n : Int) : trunc (n : Rat) = n := by
   unfold trunc
@@ -26,11 +27,6 @@ theorem toIndex_near (q : Rat) (j : Int) (h1 : (j : Rat) - 5 / 10000000 < q) (h2
   rw [round6_near q j h1 h2, trunc_intCast]
 
 /-! ### Python slicing of in-range bounds -/
-
-theorem normIdx_natCast (n k : Nat) (h : k ≤ n) : normIdx n (k : Int) = k := by
-  unfold normIdx
-  rw [if_neg (by omega)]
-  simp; omega
 
 theorem slice_aligned {α : Type} (data : Arr2 α) (r0 r1 c0 c1 : Nat)
     (hr1 : r1 ≤ data.rows) (hr : r0 ≤ r1) (hc1 : c1 ≤ data.cols) (hc : c0 ≤ c1) :
